@@ -474,10 +474,12 @@ class Residues():
         """
         self.all_residues.append(resi)
         # Collect dict with class: numbers
-        if resi.residue_class in self.residue_classes:
-            self.residue_classes[resi.residue_class].append(resi.residue_number)
+        # Residue classes are not case-sensitive in SHELXL:
+        residue_class = resi.residue_class.upper()
+        if residue_class in self.residue_classes:
+            self.residue_classes[residue_class].append(resi.residue_number)
         else:
-            self.residue_classes[resi.residue_class] = [resi.residue_number]
+            self.residue_classes[residue_class] = [resi.residue_number]
 
     @property
     def residue_numbers(self):
@@ -520,7 +522,8 @@ class RESI(Command):
         Allowed residue numbers is now from -999 to 9999 (2017/1)
         """
         alpha = re.compile('[a-zA-Z]')
-        for x in resi:
+        # The first item is the RESI keyword itself:
+        for x in resi[1:]:
             if alpha.search(x):
                 if ':' in x:
                     # contains ":" thus must be a chain-id+number
